@@ -61,6 +61,8 @@ Step(ev) ==
          /\ StartsInside(ps) /\ StartsInside(qs)
          /\ Apply2(ev.arg.mode, ps, qs, ev.obs.np)
          /\ pos' = Len(data) /\ SumRaw(qs) = Len(data)
+         /\ LET bad == {i \in 1..Len(ps) : ~PartOK2(ps[i])} IN     \* diagnostics: the first part that is not acceptable
+            bad # {} => PrintT(<<"BADPART", l, CHOOSE i \in bad : \A j \in bad : i <= j>>)
          /\ \A i \in 1..Len(ps) : PartOK2(ps[i])
          /\ \A i \in 1..Len(qs) : PartOK2(qs[i])
          /\ Len(ev.obs.np) <= Len(qs)
